@@ -223,7 +223,7 @@ def run(ctx, col: Collector):
         normalised: Set[str] = set()
         for cname, model in (('NoteBlueprint', 'Note'), ('StickyNoteBlueprint', 'StickyNote')):
             ci = idx.cls('pydbml.parser.blueprints', cname)
-            pf = ci.methods.get('_preformat_text')
+            pf = idx.lookup_method(ci.id, '_preformat_text')
             if pf is not None:
                 from ..inline import inlined_info as _ii
                 pfx = _ii(idx, pf, 3, keep={'strip_empty_lines', 'remove_indentation'})
@@ -331,8 +331,8 @@ def run(ctx, col: Collector):
     def normalise():
         for cname in ('NoteBlueprint', 'StickyNoteBlueprint'):
             ci = idx.cls('pydbml.parser.blueprints', cname)
-            pf = ci.methods.get('_preformat_text')
-            b = ci.methods.get('build')
+            pf = idx.lookup_method(ci.id, '_preformat_text')
+            b = idx.lookup_method(ci.id, 'build')
             if pf is None or b is None:
                 raise AnchorMissing(f'{cname}._preformat_text/build')
             # the chain of functions the text goes through, read by dataflow (nested calls, intermediate variables, a helper that composes the steps)
